@@ -122,6 +122,57 @@ impl Scenario for C13 {
                 _ => Op::new("add_s", &[t, rng.below(4) as f64, *rng.pick(&[100.0, 50.0, 100.0, 120.0, -5.0, 44.0, 300.0, 356.0]), *rng.pick(&[0.0, 1.0, 0.0, 1.0, -1.0, 2.0, -2.0, 65538.0, 65536.0, 65535.0])]),
             }
         };
+        if rng.chance(1, 400) {
+            // a list beyond 2^16 points (filled in ascending order without per-step checks), then ordinary operations
+            p.scen = "fill-then-ops".into();
+            let kind = rng.below(4) as f64;
+            p.ops.push(Op::new("fill", &[kind, (65_530 + rng.below(200)) as f64, -500.0, 0.25]));
+            for _ in 0..3 + rng.below(6) {
+                let t = match rng.below(3) {
+                    0 => -500.0 + 0.25 * rng.below(66_000) as f64 + 0.125, // a new time in the middle
+                    1 => 20_000.0 + rng.below(100) as f64,                  // a new time at the end
+                    _ => -500.0 + 0.25 * rng.below(65_000) as f64,          // a stored time
+                };
+                let u = 700.0 + p.ops.len() as f64;
+                p.ops.push(match kind as i64 {
+                    0 => Op::new("add_t", &[t, u, 0.0, 4.0]),
+                    1 => Op::new("add_d", &[t, 3.0 + u / 1024.0, 1.0]),
+                    2 => Op::new("add_e", &[t, 0.0, 3.0 + u / 1024.0]),
+                    _ => Op::new("add_s", &[t, 2.0, u, 0.0]),
+                });
+            }
+            return p;
+        }
+        if rng.chance(1, 120) {
+            // the same lookup before and after a burst of adds of one kind (2^8, 2^16 +-1, 2^17 of them; the first one
+            // inserts in front of everything, the rest replace it): nothing remembered across the burst may survive it
+            p.scen = "lookup-burst-lookup".into();
+            for _ in 0..2 + rng.below(5) {
+                let t = gen_time(&mut rng);
+                p.ops.push(gen_op(&mut rng, t));
+            }
+            let kind = rng.below(4) as f64;
+            p.ops.push(Op::new("burst", &[kind, *rng.pick(&[256.0, 65536.0, 65536.0, 65535.0, 65537.0, 131072.0, 512.0]), -1e6 - rng.below(50) as f64]));
+            for _ in 0..rng.below(4) {
+                let t = gen_time(&mut rng);
+                p.ops.push(gen_op(&mut rng, t));
+            }
+            return p;
+        }
+        if rng.chance(1, 8) {
+            // the collection starts life in the decoder: a few timing-point lines in one of the four modes are decoded, the
+            // legacy line model says what the lists are, and the history of adds continues on that collection
+            let n = 1 + rng.below(5);
+            let mode = rng.below(4);
+            p.set("decoded_mode", mode as i64);
+            for k in 0..n {
+                let t = (k as f64) * 100.0 - 50.0;
+                let bl = *rng.pick(&["500", "-100", "-50", "-200", "300", "-80"]);
+                let inh = if bl.starts_with('-') { 0 } else { 1 };
+                p.lines.push(format!("{t},{bl},4,{},0,{},{inh},{}", 1 + rng.below(3), *rng.pick(&[100, 60, 30]), rng.below(2)));
+            }
+            p.faults.push("collection-from-the-decoder".into());
+        }
         // rarely: a bulk history — one or two kinds, 60..700 adds with unique values (so which add survives at a time is
         // attributable), arriving ascending, descending, shuffled, or ascending followed by inserts near the front, with
         // re-adds at stored times mixed in. Lists cross every growth step of their backing store and every size class
@@ -223,6 +274,19 @@ impl Scenario for C13 {
     fn execute(&self, plan: &Plan, st: &mut Stats) -> Result<(), Violation> {
         let mut cp = ControlPoints::default();
         let mut m = MC::default();
+        if !plan.lines.is_empty() {
+            let mode = plan.get("decoded_mode").rem_euclid(4);
+            let text = format!("osu file format v14\n\n[General]\nMode: {mode}\n\n[TimingPoints]\n{}\n", plan.lines.join("\n"));
+            if let Ok(tp) = rosu_map::from_str::<rosu_map::section::timing_points::TimingPoints>(&text) {
+                cp = tp.control_points;
+                m = crate::models::timing::model(&plan.lines, mode, 0, 100).0;
+                st.inc("probe.collection-started-in-the-decoder");
+                if let Some(op) = plan.ops.first() {
+                    check_lists(&cp, &m, 0, op)?;
+                }
+            }
+        }
+        let huge = plan.ops.iter().any(|o| o.k == "fill");
         let mut prev: Option<usize> = None;
         let mut last_probe = 0.0f64;
         for (i, op) in plan.ops.iter().enumerate() {
@@ -231,6 +295,70 @@ impl Scenario for C13 {
                     st.inc(PAIRS.name(p, k));
                 }
                 prev = Some(k);
+            }
+            if op.k == "fill" {
+                // n points of one kind in ascending time order with unique values, no per-step checks
+                let (kind, n, t0, dt) = (op.iarg(0), op.iarg(1).clamp(0, 70_000), op.arg(2), op.arg(3));
+                st.inc("probe.list-filled-beyond-2^16");
+                for j in 0..n {
+                    let (t, u) = (t0 + dt * j as f64, j as f64);
+                    match kind {
+                        0 => {
+                            cp.add(TimingPoint { time: t, beat_len: 100.0 + u, omit_first_bar_line: false, time_signature: TimeSignature::new_simple_quadruple() });
+                            m.add_t(MT { time: t, beat_len: 100.0 + u, omit: false, sig: 4 });
+                        }
+                        1 => {
+                            cp.add(DifficultyPoint { time: t, slider_velocity: 0.5 + u / 65536.0, generate_ticks: true });
+                            m.add_d(MD { time: t, sv: 0.5 + u / 65536.0, ticks: true });
+                        }
+                        2 => {
+                            cp.add(EffectPoint { time: t, kiai: false, scroll_speed: 0.5 + u / 65536.0 });
+                            m.add_e(ME { time: t, kiai: false, scroll: 0.5 + u / 65536.0 });
+                        }
+                        _ => {
+                            cp.add(SamplePoint { time: t, sample_bank: bank(1), sample_volume: j as i32, custom_sample_bank: 0 });
+                            m.add_s(MS { time: t, bank: 1, vol: j as i32, custom: 0 });
+                        }
+                    }
+                }
+                check_lists(&cp, &m, i, op)?;
+                continue;
+            }
+            if op.k == "burst" {
+                let (kind, n, t) = (op.iarg(0), op.iarg(1).clamp(1, 200_000), op.arg(2));
+                st.inc("probe.lookup-burst-lookup");
+                // the lookups right before the burst ...
+                let probes = [last_probe, t + 1.0, 0.0, 1.0, f64::MAX];
+                let nan_inside = cp.timing_points.iter().any(|p| p.time.is_nan()) || cp.difficulty_points.iter().any(|p| p.time.is_nan()) || cp.effect_points.iter().any(|p| p.time.is_nan()) || cp.sample_points.iter().any(|p| p.time.is_nan());
+                if nan_inside {
+                    continue; // (a NaN-time point is in the collection: the narrow oracle of that hostile add applies, not this one)
+                }
+                check_lookup_at(&cp, &m, i, &probes)?;
+                for j in 0..n {
+                    let u = j as f64;
+                    match kind {
+                        0 => {
+                            cp.add(TimingPoint { time: t, beat_len: 200.0 + u, omit_first_bar_line: false, time_signature: TimeSignature::new_simple_quadruple() });
+                            m.add_t(MT { time: t, beat_len: 200.0 + u, omit: false, sig: 4 });
+                        }
+                        1 => {
+                            cp.add(DifficultyPoint { time: t, slider_velocity: 0.5 + u / 262144.0, generate_ticks: true });
+                            m.add_d(MD { time: t, sv: 0.5 + u / 262144.0, ticks: true });
+                        }
+                        2 => {
+                            cp.add(EffectPoint { time: t, kiai: false, scroll_speed: 0.5 + u / 262144.0 });
+                            m.add_e(ME { time: t, kiai: false, scroll: 0.5 + u / 262144.0 });
+                        }
+                        _ => {
+                            cp.add(SamplePoint { time: t, sample_bank: bank(2), sample_volume: j as i32, custom_sample_bank: 0 });
+                            m.add_s(MS { time: t, bank: 2, vol: j as i32, custom: 0 });
+                        }
+                    }
+                }
+                // ... and the very same ones right after it
+                check_lists(&finite(&cp), &m, i, op)?;
+                check_lookup_at(&cp, &m, i, &probes)?;
+                continue;
             }
             let t = op.arg(0);
             if t == 0.0 && t.is_sign_negative() {
@@ -388,7 +516,7 @@ impl Scenario for C13 {
             let has_nan = cp.timing_points.iter().any(|p| p.time.is_nan()) || cp.difficulty_points.iter().any(|p| p.time.is_nan()) || cp.effect_points.iter().any(|p| p.time.is_nan()) || cp.sample_points.iter().any(|p| p.time.is_nan());
             // bulk histories: the full quadratic sweep only now and then, the neighbourhood of the add every time
             let every = if plan.ops.len() > 1500 { 1531 } else { 41 };
-            let sparse = plan.ops.len() > 160 && i % every != 0 && i + 1 != plan.ops.len();
+            let sparse = huge || (plan.ops.len() > 160 && i % every != 0 && i + 1 != plan.ops.len());
             if has_nan {
                 check_lookups(&finite(&cp), &m, i, st)?;
             } else {
